@@ -115,7 +115,7 @@ def main(tier):
                                                "log_tail": (out if not ok else plog)[-2000:], "grep_gate": gate}, no_input=True)
     quick = tier == "quick"
     try:
-        nm, nt, nv = (7, 5, 4) if quick else (40, 6, 8)
+        nm, nt, nv = (7, 5, 4) if quick else (28, 6, 8)
         mods, cases = build_corpus(run, rng, nm, nt, nv, tier, tag="c05", moddrv_extra=EXTRA)
         cm, wm = U.chain_module(), U.wide_module()
         build_modules([cm, wm], tag="c05x", moddrv_extra=EXTRA)
